@@ -112,6 +112,39 @@ TABLE = {
             "independent diagonalisation in the harness", "4/C33"),
 }
 
+# added after the seeded rounds and the widening reviews (DESIGN.md sections 13-14)
+_H = "; generator classes added after the seeded rounds / widening reviews (DESIGN 13-14): "
+HISTORY_NOTE = {
+    "C01": _H + "sheared and Gaussian lattices with a certificate Wigner-Seitz oracle, one Rvectors object re-listed with the mesh in another order",
+    "C02": _H + "API histories of the system, one Rvectors object re-used over libraries and grid shifts, returned arrays re-checked at the end",
+    "C03": _H + "API histories of the system, calculator grouping options",
+    "C04": _H + "2-4-fold degeneracies, calculator grouping options (degen_thresh, degen_Kramers), periodicity on degenerate models",
+    "C05": _H + "API histories (rvec.copy, do_ws_dist, npz), cached-property invariant after reorder",
+    "C06": _H + "grids specified by NK / length / NK+NKFFT incl. NK not a multiple of NKFFT on groups shearing the reduced axes",
+    "C07": _H + "documented-equivalent symmetry flag sets of the irreducible run",
+    "C09": _H + "generator strings that are products of non-commuting named operations",
+    "C10": _H + "restart from an earlier iteration, tetrahedral grids, Klist_part",
+    "C11": _H + "tetrahedral grids, Klist_part",
+    "C12": _H + "tetrahedral grids",
+    "C13": _H + "multiplets > 2 and chains, energy offsets, API histories, calculator objects re-used, degen_thresh / constant_factor / select_bands forms, 100+ Fermi levels, tetra differential relations",
+    "C14": _H + "several Fermi arrays served by one TetraWeights object",
+    "C16": _H + "argument forms, in-place add, transform twice, results re-read, save histories, smoothers through every operation",
+    "C17": _H + "large grids and kernels, integer inputs, mode=None, descending grids, used objects, second set_smoother",
+    "C18": _H + "systems used and spin-doubled / through API histories before saving, force_internal_terms_only systems",
+    "C19": _H + "permuted dict order, npz reload before text write, reader options, equals controls, container histories, 100+ k-points and bands",
+    "C20": _H + "subgroup symmetrisation through symmetrize2(use_symmetries_index), warm caches",
+    "C21": _H + "neighbours of cached rotations on one shared rotator (1e-9..1e-2), N-fold power of a small rotation",
+    "C22": _H + "kmesh_tol / search_supercell / bk_complete_tol varied, nearly symmetric cells, argument forms, nnkp / npz / reorder_mmn / select_kpoints histories, a shell on the search sphere",
+    "C24": _H + "options of wannierise incl. sitesym=True, frozen_states forms, window edges on eigenvalues, 1-2 and 100+ k-points, second call / reloaded checkpoint",
+    "C25": _H + "double_spin after API histories, cached-property invariant",
+    "C26": _H + "cached-property invariant on interpolated systems",
+    "C27": _H + "gap AHC through adaptive refinement of the full grid",
+    "C29": _H + "API histories of the system, unnamed and odd labels",
+    "C30": _H + "API histories of the system",
+    "C32": _H + "derived source models, every importer entry point and keyword, spin oracle, system and import histories, builder argument forms",
+    "C33": _H + "API histories of the system",
+}
+
 READY_FILE = os.path.join(ROOT, "tools", "ready.txt")
 
 
@@ -121,6 +154,7 @@ def main():
     not_app = []
     for pid in sorted(TABLE):
         cat, tech, text, note, ref = TABLE[pid]
+        note = note + HISTORY_NOTE.get(pid, "")
         script = f"checks/{pid.lower()}.py"
         if pid in ready and os.path.exists(os.path.join(ROOT, script)):
             checks.append(dict(
